@@ -338,6 +338,64 @@ def kernel_level_forms(ctx):
     ctx.count("kernel-level vacate/fill forms x kernel kinds x grid shapes: agree with the methods", n_ok)
 
 
+SPEC_ZONE_SRC = """
+@{DEC}
+def main(more: ilist.IList[tuple[int, int], Any]):
+    z = spec.get_static_trap(zone_id="mem")
+    s = spec.get_special_grid(grid_id="res")
+    a = filled.vacate(z, more)
+    b = filled.fill(z, more)
+    c = filled.shift(z, 1.0, -1.0)
+    d = filled.repeat(s, 2, 1, 30.0, 1.0)
+    e = grid.sub_grid(z, [0, 0, 2], [1, 1])
+    f = filled.get_parent(z)
+    g = filled.vacate(s, [(0, 0)])
+    h = z[0:2, 1]
+    return (z, s, a, b, c, d, e, f, g, h)
+"""
+
+
+def spec_zone_forms(ctx):
+    """zones of the architecture spec that ARE filled grids, read inside kernels of every kind: resolved at run time (spec-carrying
+    interpreter) and injected at definition (arch_spec=...), with and without the fold - the statements applied to them compute what the
+    Python methods compute on the zone the spec holds"""
+    from bloqade.geometry.dialects.grid import Grid
+    from bloqade.shuttle import prelude
+    from bloqade.shuttle.arch import ArchSpec, ArchSpecInterpreter, Layout
+    from kirin.dialects import ilist
+    FGc = FG()
+    mem = FGc.vacate(Grid.from_positions([0.0, 1.0, 2.5], [0.0, 2.0, 5.0]), [(0, 1), (2, 2)])
+    res = FGc.vacate(Grid.from_positions([-4.0, -2.0], [0.5]), [(1, 0)])
+    S = ArchSpec(layout=Layout({"mem": mem, "plain": Grid.from_positions([10.0, 11.0], [0.0])}, {"mem"}, {"mem"}, {"plain"}, special_grid={"res": res}))
+    more = [(1, 1), (0, 1)]
+    want = (mem, res, FGc.vacate(mem, more), FGc.fill(mem, more), mem.shift(1.0, -1.0), res.repeat(2, 1, 30.0, 1.0),
+            mem.get_view(ilist.IList([0, 0, 2]), ilist.IList([1, 1])), mem.parent, FGc.vacate(res, [(0, 0)]), mem[0:2, 1])
+    n_ok = 0
+    for dec in ("move", "kernel", "tweezer"):
+        for how in ("run-time lookup", "(arch_spec=S)", "(arch_spec=S, fold=False)"):
+            src = SPEC_ZONE_SRC.replace("{DEC}", dec + ("" if how == "run-time lookup" else how))
+            rep = {"spec_zone_src": src, "decorator": dec, "how": how}
+            ctx.evaluations += 1
+            try:
+                m = kernels.define(src, kernel=prelude.kernel, S=S)["main"]
+                if how == "run-time lookup":
+                    got = ArchSpecInterpreter(m.dialects, arch_spec=S).run(m, (ilist.IList(more),))
+                else:
+                    got = m(ilist.IList(more))
+            except Exception as e:
+                ctx.fail({"kind": "kernel-raises", "decorator": dec, "spec_zone": how}, rep, f"@{dec} kernel reading filled-grid zones of the spec ({how}) raises {type(e).__name__}: {str(e)[:120]}")
+                continue
+            bad = [nm for nm, x, y in zip("zsabcdefgh", got, want) if show_val(x) != show_val(y) or not (x == y) or hash(x) != hash(y)]
+            if bad:
+                ctx.fail({"kind": "kernel-vs-method", "decorator": dec, "spec_zone": how}, rep,
+                         f"@{dec} kernel reading filled-grid zones of the spec ({how}): values {bad} differ from the Python methods applied to the spec's zones, "
+                         f"e.g. {bad[0]} = {show_val(got['zsabcdefgh'.index(bad[0])])[:100]} instead of {show_val(want['zsabcdefgh'.index(bad[0])])[:100]}")
+            else:
+                n_ok += 1
+                ctx.nt(("spec-zone-form", dec, how))
+    ctx.count("kernels reading filled-grid zones of the spec x kernel kinds x lookup routes: agree with the methods", n_ok)
+
+
 def run(ctx):
     ctx.rule = ("chains of fill/vacate/shift/scale/repeat/get_view/get_parent from a grid built from positions: exhaustive = every vacancy subset of "
                 "the 1x3, 2x2, 2x3 grids x a fixed list of second operations (all views of length <= 2 incl. repeated and reversed indices, "
@@ -390,6 +448,7 @@ def run(ctx):
     ctx.correspondence("Model.Filled (over GridQ) vs FilledGrid methods: underlying grid, vacancy set, positions", len(cases), mism)
     kernel_level(ctx)
     kernel_level_forms(ctx)
+    spec_zone_forms(ctx)
     ctx.explanation = ("13 theorems, parametric in the underlying grid and its operations (so independent of bloqade.geometry's arithmetic): "
                        "denotation, cumulative fill/vacate, shift/scale commute, views re-index for ALL index selections, repeat tiles for any "
                        "shape, equality iff same underlying grid and vacancy set. Exact rational model of Grid for the correspondence; floats "
@@ -407,6 +466,16 @@ def replay(data):
         k = K()
         kernel_level_forms(k)
         mine = [w for d, w in k.fails if d == inp.get("decorator")]
+        return bool(mine), (mine or ["agrees with the methods"])[0][:200]
+    if "spec_zone_src" in inp:
+        class K:
+            def __init__(s): s.fails, s.evaluations = [], 0
+            def fail(s, sig, rep, what): s.fails.append(((rep.get("decorator"), rep.get("how")), what))
+            def nt(s, *a): pass
+            def count(s, *a): pass
+        k = K()
+        spec_zone_forms(k)
+        mine = [w for d, w in k.fails if d == (inp.get("decorator"), inp.get("how"))]
         return bool(mine), (mine or ["agrees with the methods"])[0][:200]
     if "base" not in inp:
         return True, "kernel-level replay: re-run bin/check C12"
